@@ -6,7 +6,12 @@
   * `keyTransform`    : `SiftConfig.__keytransform__` (split on '/', at most three levels)
   * `cfgGet/Set/Del`  : `SiftConfig.__getitem__/__setitem__/__delitem__` written out level by level
                         exactly like the code; `getPath/setPath/delPath` are plain nested indexing
-  * `toSafe`          : `_array_or_tuple_to_list` (ndarray → tolist(), tuple → list, through dicts only)
+  * `Scalar`          : None | bool | int | float | str, and numpy scalars (`npbool`, `npint dtype`, `npnum dtype`)
+  * `toSafe`          : `_array_or_tuple_to_list` (ndarray → tolist(), tuple → list, through dicts only; numpy
+                        scalars → `.item()`, also inside lists / tuples / dicts therein: `itemize`);
+                        `toSafeV1` is the routine before that repair (D38)
+  * `yamlSafe`        : no ndarray and no numpy scalar anywhere = what PyYAML's FullLoader reads back
+  * `Alias`           : a two-level heap stating what `get_func()`'s shallow copy shares with the live config
   * `Codec`           : the YAML library as an oracle (`dump/load`, `dump_all/load_all`)
   * `toYamlFile/fromYamlFile`, `toYamlText/fromYamlStream`, `getFunc`, `getConfig`
 
